@@ -30,6 +30,7 @@ type SplitDump struct {
 	HeaderT   int64
 	Generation int
 	Digests   []string
+	Rates     map[string]string
 }
 
 func (h *Host) dumpDB() [][2][]byte {
@@ -44,7 +45,7 @@ func (h *Host) dumpDB() [][2][]byte {
 }
 
 func newHostFromDump(cfg *Config, d *SplitDump) *Host {
-	h := &Host{cfg: cfg, db: dbm.NewMemDB(), chain: chainID, generation: d.Generation}
+	h := &Host{cfg: cfg, db: dbm.NewMemDB(), chain: chainID, generation: d.Generation, rates: copyRates(d.Rates)}
 	for _, kv := range d.KVs {
 		v := kv[1]
 		if v == nil {
@@ -52,7 +53,7 @@ func newHostFromDump(cfg *Config, d *SplitDump) *Host {
 		}
 		must(h.db.Set(kv[0], v))
 	}
-	h.app = newApp(h.db)
+	h.app = newApp(h.db, cfg.MultiToken)
 	h.registerForeign()
 	h.header = tmproto.Header{ChainID: h.chain, Height: h.app.LastBlockHeight(), Time: time.Unix(0, d.HeaderT).UTC()}
 	return h
@@ -101,6 +102,7 @@ func cmdPhase(args []string) {
 		d.Height = x.H().Height()
 		d.HeaderT = x.H().Time().UnixNano()
 		d.Generation = x.H().generation
+		d.Rates = x.H().rates
 		f, err := os.Create(*out)
 		must(err)
 		must(gob.NewEncoder(f).Encode(d))
